@@ -36,7 +36,7 @@ inductive IS where
   | returned   -- routine returned / skipped; `close(exitedCh)` not done yet
   | closed     -- `cancel(); close(exitedCh)` done; final critical section pending
   | recorded   -- goroutine finished
-deriving DecidableEq, Repr
+deriving DecidableEq, Repr, Hashable
 
 structure Inst where
   /-- id of the record (`r`) this goroutine belongs to -/
@@ -53,7 +53,7 @@ structure Inst where
   /-- epoch in which the instance returned (a retry timer armed by its `record` cannot fire before
   the end of that epoch) -/
   retEpoch : Nat := 0
-deriving DecidableEq, Repr
+deriving DecidableEq, Repr, Hashable
 
 /-- one generation of a key: the hand-over chain of its instances -/
 structure G where
@@ -61,7 +61,7 @@ structure G where
   insts : List Inst := []
   /-- `r.exitedCh` of the record in the map: the exit channel the next start waits on -/
   last : Option Nat := none
-deriving DecidableEq, Repr
+deriving DecidableEq, Repr, Hashable
 
 /-- `runningRoutine` -/
 structure Rec where
@@ -82,7 +82,7 @@ structure Rec where
   deferRetry : Option Nat := none
   /-- position in the backoff script (`NextBackOff` calls since the last `Reset`) -/
   bo : Nat := 0
-deriving DecidableEq, Repr
+deriving DecidableEq, Repr, Hashable
 
 structure Cfg where
   /-- the object is a `KeyedRefCount` (only its API is available) -/
@@ -91,14 +91,14 @@ structure Cfg where
   delay : Bool
   /-- `WithBackoff`: `some n` = the backoff yields `D` n times, then `Stop` -/
   retry : Option Nat
-deriving DecidableEq, Repr
+deriving DecidableEq, Repr, Hashable
 
 /-- `KeyedRef`: `rel` is the atomic once-flag, `listed` = the reference is in `rc.refs[key]` -/
 structure RefSt where
   key : Nat
   rel : Bool := false
   listed : Bool := true
-deriving DecidableEq, Repr
+deriving DecidableEq, Repr, Hashable
 
 inductive Op where
   | setKey (k : Nat) (start : Bool)
@@ -115,7 +115,7 @@ inductive Op where
   | addKeyRef (k : Nat)
   | release (r : Nat)
   | rcRemoveKey (k : Nat)
-deriving DecidableEq, Repr
+deriving DecidableEq, Repr, Hashable
 
 inductive Res where
   | dataExisted (d : Nat) (e : Bool)
@@ -127,17 +127,17 @@ inductive Res where
   | existedReset (e r : Bool)
   | counts (n total : Nat)
   | unit
-deriving DecidableEq, Repr
+deriving DecidableEq, Repr, Hashable
 
 inductive Call where
   | idle
   | invoked (id : Nat) (op : Op)
   | done (id : Nat) (ctors : List (Nat × Nat)) (res : Res)
-deriving DecidableEq, Repr
+deriving DecidableEq, Repr, Hashable
 
 inductive Outcome where
   | ok | err | canceled
-deriving DecidableEq, Repr
+deriving DecidableEq, Repr, Hashable
 
 /-- finite maps from keys (small `Nat`s) as lists indexed by the key -/
 def look {α : Type} (l : List (Option α)) (k : Nat) : Option α := (l[k]?).join
@@ -159,7 +159,7 @@ structure St where
   /-- harness run id ↦ (generation, instance) -/
   runs : List (Nat × Nat) := []
   call : Call := .idle
-deriving DecidableEq, Repr
+deriving DecidableEq, Repr, Hashable
 
 def St.key (s : St) (k : Nat) : Option Rec := look s.keys k
 def St.ctors (s : St) (k : Nat) : Nat := (look s.nctor k).getD 0
@@ -473,7 +473,7 @@ inductive Ev where
   | advance
   | quiesce
   | probe (j : Nat) (cancelled : Bool)
-deriving DecidableEq, Repr
+deriving DecidableEq, Repr, Hashable
 
 /-- what the harness logs -/
 inductive Obs where
@@ -486,7 +486,7 @@ inductive Obs where
   | advance
   | quiesce
   | probe (j : Nat) (cancelled : Bool)
-deriving DecidableEq, Repr
+deriving DecidableEq, Repr, Hashable
 
 def Ev.obs : Ev → Option Obs
   | .config c => some (.config c)
